@@ -57,6 +57,11 @@ type Config struct {
 	// Start runs the real Start() (receive loop + knock detector); otherwise the canary
 	// is driven with Inject and only the knock detector goroutine runs.
 	Start bool `json:"start"`
+	// HoldSource / HoldMs: the event channel is slow for port-scan events of this source
+	// address - Send announces the event ("hold" report) and then takes HoldMs before it
+	// returns, as a channel that pushes to a remote service may.
+	HoldSource string `json:"hold_source,omitempty"`
+	HoldMs     int    `json:"hold_ms,omitempty"`
 }
 
 type report struct {
@@ -106,12 +111,18 @@ func (w *repWriter) send(r report) {
 }
 
 type evChan struct {
-	id uint32
-	w  *repWriter
+	id         uint32
+	w          *repWriter
+	holdSource string
+	hold       time.Duration
 }
 
 func (e *evChan) Send(ev event.Event) {
 	m := event.ToMap(ev)
+	if e.hold > 0 && fmt.Sprint(m["category"]) == "portscan" && fmt.Sprint(m["source-ip"]) == e.holdSource {
+		e.w.send(report{T: "hold", ID: e.id})
+		time.Sleep(e.hold)
+	}
 	out := make(map[string]interface{}, len(m))
 	for k, v := range m {
 		if k == "payload" || k == "date" {
@@ -460,7 +471,7 @@ func newChildCanary(id uint32, cfg Config, w *repWriter) (*childCanary, error) {
 		}
 		rt = append(rt, canary.Route{Interface: r.Interface, Gateway: gw, Destination: *dst})
 	}
-	c, err := canary.NewVerif(cfg.Interfaces, ac, rt, &evChan{id: id, w: w})
+	c, err := canary.NewVerif(cfg.Interfaces, ac, rt, &evChan{id: id, w: w, holdSource: cfg.HoldSource, hold: time.Duration(cfg.HoldMs) * time.Millisecond})
 	if err != nil {
 		return nil, err
 	}
@@ -618,12 +629,14 @@ func (c *Child) reader() {
 			var r report
 			dec := json.NewDecoder(bytes.NewReader(line))
 			if derr := dec.Decode(&r); derr == nil {
-				if r.T == "ev" {
+				if r.T == "ev" || r.T == "hold" {
 					c.mu.Lock()
 					k := c.canaries[r.ID]
 					c.mu.Unlock()
-					if k != nil {
+					if k != nil && r.T == "ev" {
 						k.add(Ev{M: r.M})
+					} else if k != nil {
+						k.held()
 					}
 				} else {
 					c.replies <- r
@@ -787,6 +800,38 @@ type Canary struct {
 	mu     sync.Mutex
 	cond   *sync.Cond
 	events []Ev
+	holds  int
+}
+
+func (k *Canary) held() {
+	k.mu.Lock()
+	k.holds++
+	k.cond.Broadcast()
+	k.mu.Unlock()
+}
+
+// Holds returns the number of held deliveries announced so far.
+func (k *Canary) Holds() int {
+	k.mu.Lock()
+	defer k.mu.Unlock()
+	return k.holds
+}
+
+// WaitHold waits until the slow event channel has announced at least n held deliveries
+// (see Config.HoldSource), the child died or the timeout expired.
+func (k *Canary) WaitHold(n int, timeout time.Duration) bool {
+	deadline := time.Now().Add(timeout)
+	t := time.AfterFunc(timeout+time.Millisecond, k.wake)
+	defer t.Stop()
+	k.mu.Lock()
+	defer k.mu.Unlock()
+	for k.holds < n {
+		if !time.Now().Before(deadline) || k.ch.Dead() {
+			return false
+		}
+		k.cond.Wait()
+	}
+	return true
 }
 
 // New creates a hooked canary in the child.
